@@ -483,4 +483,68 @@ def circularArc (cs : List (α × α)) (w r : α) : Func α :=
 def quarterAnnulus (r1 r2 w : α) : Func α :=
   mkNurbs [3, 2] [2] [r1, 0, r2, 0, r1, r1, r2, r2, 0, r1, 0, r2] [1, 1, w, w, 1, 1] false
 
+/-! ### ComposedFunction  (`geo(x) = geo2(geo1(x))`, geometry.py:341-378) -/
+
+/-- `ComposedFunction.grid_eval` at one grid node: `XY = geo1.grid_eval(grd)`, then
+`geo2.pointwise_eval(np.rollaxis(XY, -1))` — component `e` of `geo1`'s value becomes the xyz
+coordinate `e` handed to `geo2`'s scattered route.  `mid[e]` = that coordinate (an input: the
+implementation's own double), `B2` the 1-D data of `geo2`'s knot vectors at it. -/
+def composedVal {X : Type} [Inhabited X] (S2 : Spl α) (B2 : Nat → X → Info α) (mid : List X) (j : Nat) : α :=
+  S2.pwVal B2 mid j
+
+/-- `np.matmul(A, B)` for one pair of matrices given as lists of rows -/
+def matMul (A B : List (List α)) : List (List α) :=
+  A.map (fun row => (List.range (B.headD []).length).map (fun m =>
+    sumTo row.length (fun e => row.getD e 0 * (B.getD e []).getD m 0)))
+
+/-- `ComposedFunction.grid_jacobian` at one node: `np.matmul(jac2, jac1)` with
+`jac1 = geo1.grid_jacobian(grd)` (`dim1 × sdim1`) and
+`jac2 = geo2.pointwise_jacobian(np.rollaxis(XY, -1))` (`dim2 × sdim2`, `sdim2 = dim1`). -/
+def composedJac (jac2 jac1 : List (List α)) : List (List α) := matMul jac2 jac1
+
+/-! ### more constructors -/
+
+/-- `functools.reduce(tensor_product, segs)`: `tp(tp(tp(L0, L1), L2), …)` -/
+def reduceTensor : List (Func α) → Func α
+  | [] => { nurbs := false, dims := [], vshape := [0], isscalar := false, c := [] }
+  | L :: Ls => Ls.foldl bspTensor L
+
+/-- `unit_cube(dim, num_intervals)`: `reduce(tensor_product, dim * (line_segment(0, 1, intervals=n),))`;
+`S = linspace(0, 1, n+1)` is an input -/
+def unitCube (dim : Nat) (S : List α) : Func α :=
+  reduceTensor (List.replicate dim (lineSegment [0] [1] S))
+
+/-- `identity(extents)`: `reduce(tensor_product, (line_segment(ex[0], ex[1], support=ex) for ex in extents))`
+(`intervals = 1`, so `S = [0, 1]`) -/
+def identityGeo (extents : List (α × α)) : Func α :=
+  reduceTensor (extents.map (fun ex => lineSegment [ex.1] [ex.2] [0, 1]))
+
+/-- `BSplineFunc.cylinderize(z0, z1, support)`: `tensor_product(line_segment(z0, z1, support=support), self)` -/
+def Func.cylinderize (F : Func α) (z0 z1 : α) : Func α :=
+  bspTensor (lineSegment [z0] [z1] [0, 1]) (F.bspAsVector)
+
+/-- `np.flipud(coeffs)`: reverse the first coefficient axis -/
+def Func.flipud (F : Func α) : Func α :=
+  let n0 := F.dims.headD 1
+  let inner := F.c.length / n0
+  { F with c := (List.range n0).flatMap (fun i => (List.range inner).map (fun k => F.at ((n0 - 1 - i) * inner + k))) }
+
+/-- `_combine_boundary_curves(bottom, top, left, right)` followed by the rest of `disk(r)`:
+```
+coeffs = np.full((3, 3, 3), nan); coeffs[:, 0] = left; coeffs[:, -1] = right
+coeffs[0, :] = bottom; coeffs[-1, :] = top; coeffs[1, 1] = (0, 0, 0.5)
+if r != 1.0: coeffs[:, :, :2] *= r
+NurbsFunc(kvs, coeffs, None, premultiplied=True)
+```
+each curve is a list of 3 homogeneous control points `[x, y, w]` (flat, length 9); later
+assignments overwrite earlier ones exactly as in the code (corners come from bottom/top). -/
+def diskAssemble (bottom top left right : List α) (half r : α) (scaleR : Bool) : Func α :=
+  let pt := fun (cv : List α) (i : Nat) => [cv.getD (3 * i) 0, cv.getD (3 * i + 1) 0, cv.getD (3 * i + 2) 0]
+  let grid : List (List α) :=
+    [pt bottom 0, pt bottom 1, pt bottom 2,
+     pt left 1, [0, 0, half], pt right 1,
+     pt top 0, pt top 1, pt top 2]
+  let sc := fun (p : List α) => if scaleR then [r * p.getD 0 0, r * p.getD 1 0, p.getD 2 0] else p
+  { nurbs := true, dims := [3, 3], vshape := [3], isscalar := false, c := (grid.map sc).flatten }
+
 end Pyiga.Geo
